@@ -183,38 +183,6 @@ fn probe_with_binary(rep: &mut Report, cwd: &std::path::Path, file: &str, entry:
 	}
 }
 
-/// while alive the calling thread may run on one CPU only (so `available_parallelism()` reports 1)
-struct OneCpu {
-	old: Option<libc::cpu_set_t>,
-}
-impl OneCpu {
-	fn new() -> OneCpu {
-		// SAFETY: plain libc calls on local, zero-initialised sets
-		unsafe {
-			let mut old: libc::cpu_set_t = std::mem::zeroed();
-			if libc::sched_getaffinity(0, std::mem::size_of::<libc::cpu_set_t>(), &mut old) != 0 {
-				return OneCpu { old: None };
-			}
-			let first = (0..libc::CPU_SETSIZE as usize).find(|i| libc::CPU_ISSET(*i, &old));
-			let Some(first) = first else { return OneCpu { old: None } };
-			let mut one: libc::cpu_set_t = std::mem::zeroed();
-			libc::CPU_SET(first, &mut one);
-			if libc::sched_setaffinity(0, std::mem::size_of::<libc::cpu_set_t>(), &one) != 0 {
-				return OneCpu { old: None };
-			}
-			OneCpu { old: Some(old) }
-		}
-	}
-}
-impl Drop for OneCpu {
-	fn drop(&mut self) {
-		if let Some(old) = self.old.take() {
-			// SAFETY: as above
-			unsafe { libc::sched_setaffinity(0, std::mem::size_of::<libc::cpu_set_t>(), &old) };
-		}
-	}
-}
-
 fn hexs(b: &[u8]) -> String {
 	b.iter().take(160).map(|x| format!("{x:02x}")).collect()
 }
@@ -793,7 +761,7 @@ fn run_mbtiles(cx: &CaseCtx, rep: &mut Report, rng: &mut Rng, n: usize) {
 		// now and then on a machine with a single CPU (a small VM, `docker --cpus=1`, `taskset -c 0`)
 		let one_cpu = i % 7 == 3;
 		let r = guarded(rep, cx, "mbtiles", class, 1000, wit, || match {
-			let _pin = if one_cpu { Some(OneCpu::new()) } else { None };
+			let _pin = if one_cpu { Some(guard::OneCpu::new()) } else { None };
 			MBTilesReader::open_path(&path)
 		} {
 			Err(_) => false,
@@ -862,6 +830,30 @@ fn run_tar(cx: &CaseCtx, rep: &mut Report, rng: &mut Rng, n: usize) {
 				(b, "member-name-mutation")
 			}
 			_ if i % 9 == 0 => (seed.clone(), "valid"),
+			_ if i % 9 == 4 => {
+				// archives without a single tile: empty file, end-of-archive marker only, metadata only, stray members only
+				let b = match rng.below(4) {
+					0 => vec![],
+					1 => vec![0u8; 1024],
+					2 => {
+						let mut o = itar::EncOpts::random(rng);
+						o.no_meta = false;
+						let mut empty = ts.clone();
+						empty.tiles.clear();
+						itar::encode(&empty, &o, rng)
+					}
+					_ => {
+						let mut t = ts.clone();
+						t.tiles.clear();
+						t.tilejson = "not even json".into();
+						let mut o = itar::EncOpts::random(rng);
+						o.no_meta = false;
+						o.meta_name = "tiles.json";
+						itar::encode(&t, &o, rng)
+					}
+				};
+				(b, "tar-without-tiles")
+			}
 			_ => (mutate(&seed, rng, false, &[124, 136, 148, 156, 257]), "tar-mutation"),
 		};
 		let _ = std::fs::write(&path, &input);
@@ -994,6 +986,8 @@ fn run_case(cx: &CaseCtx, rep: &mut Report) {
 	let case = cx.case;
 	let entry = ENTRIES[(case % ENTRIES.len() as u64) as usize];
 	let tier = cx.tier;
+	// every other round over the entries runs as a process that logs at trace level (`-vvvv`, RUST_LOG=trace)
+	guard::trace_logging((case / ENTRIES.len() as u64) % 2 == 1);
 	// run on a 2 MiB stack (tokio's worker stack size): "moderate nesting" must fit
 	let mut local = Report::new();
 	local.current_case = case;
